@@ -611,6 +611,8 @@ func runC06(c *Ctx) {
 	updateCacheCoherenceRule(c, r6)
 	r7 := c.Rule("R7", "the count delta a dead transaction's log replay must subtract survives the log encoding: StoreInfo.CountDelta is excluded from JSON (json:\"-\"), so the store infos the replay hands to StoreRepository.Update must get their CountDelta from a field of the payload that is encoded - not from decoding the payload straight into []sop.StoreInfo", 3)
 	replayDeltaRule(c, r7)
+	r8 := c.Rule("R8", "the window between writing the store counts and logging the next step is covered by recovery: commitStores runs strictly between log(commitStoreInfo) and log(beforeFinalize), and counts (unlike staged nodes) are visible without the commit point, so the replay of a log that ENDS with commitStoreInfo must be able to reverse what was applied - a strict `last > commitStoreInfo` gate with nothing that tells applied from unapplied deltas cannot", 2)
+	storeCountWindowRule(c, r8)
 
 }
 
@@ -820,3 +822,54 @@ func replayDeltaRule(c *Ctx, r7 string) {
 	}
 	c.Check(n == 1, r7, "log replay: one StoreRepository.Update call", ft.Decl.Pos(), "found", fmt.Sprintf("found %d", n), nil)
 }
+
+// storeCountWindowRule (C06.R8 = C09.R8).
+func storeCountWindowRule(c *Ctx, r8 string) {
+	w := c.W
+	// 1. phase1Commit: the persistent count write lies between the two log records
+	f1 := w.Fn(kTxp1)
+	g1 := w.G(f1)
+	c.Analysed(f1)
+	step := w.Object("common", "commitStoreInfo")
+	next := w.Object("common", "beforeFinalize")
+	act := calls(kTxCommitStores)
+	between := len(g1.MustPrecede(logCalls(g1, step), act)) == 0 && len(g1.MustFollow(g1.Find(act), logCalls(g1, next), func(n *GNode) bool {
+		return n.Ret != nil && g1.ClassifyReturn(n) == RetNil
+	})) == 0
+	c.Check(between, r8, "phase1Commit: commitStores runs between log(commitStoreInfo) and log(beforeFinalize)", f1.Decl.Pos(), "log, write counts, log", "the count write is no longer bracketed by the two log records (rule has nothing to decide)", nil)
+	// 2. the replay's gate for that record
+	ft := w.Fn(kTLRollback)
+	gt := w.G(ft)
+	c.Analysed(ft)
+	info := ft.Pkg.TypesInfo
+	lastVar := w.localVar(ft, "lastCommittedFunctionLog")
+	gates := stateGuards(w, gt, func(e ast.Expr) bool {
+		id, ok := ast.Unparen(e).(*ast.Ident)
+		return ok && lastVar != nil && info.Uses[id] == types.Object(lastVar)
+	})
+	var gate *stateGuard
+	for i := range gates {
+		if gates[i].k == step {
+			gate = &gates[i]
+		}
+	}
+	if gate == nil {
+		c.Held(r8, "log replay: a log that ends with commitStoreInfo is not skipped", ft.Decl.Pos(), "no `lastCommittedFunctionLog OP commitStoreInfo` gate: the record is always replayed")
+		return
+	}
+	// an applied-or-not discriminator: the gated block (or a callee) compares a stored Timestamp / version with a logged one
+	discriminates := false
+	ast.Inspect(ft.Body, func(x ast.Node) bool {
+		if be, ok := x.(*ast.BinaryExpr); ok && (be.Op == token.EQL || be.Op == token.NEQ) {
+			if strings.Contains(types.ExprString(be), "Timestamp") {
+				discriminates = true
+			}
+		}
+		return true
+	})
+	ok := holdsOpTok(gate.op) || discriminates
+	c.Check(ok, r8, "log replay: a log that ends with commitStoreInfo is not skipped", gate.n.Ast.Pos(), "the gate admits last == commitStoreInfo (with a discriminator for applied deltas)",
+		"the replay reverses the store counts only when a record later than commitStoreInfo exists (`lastCommittedFunctionLog "+gate.op.String()+" commitStoreInfo`): a writer that dies inside StoreRepository.Update (some stores written) or right after it (all written, beforeFinalize not yet logged) leaves a log ending with commitStoreInfo, the replay skips it and removes the log - the items are rolled back, Count() keeps the dead transaction's delta for good", nil)
+}
+
+func holdsOpTok(op token.Token) bool { return op == token.GEQ }
